@@ -36,7 +36,7 @@ PROPS = {
                        "caller's own action, never from stored state (except the reviewed defsrc row)",
     },
     "C03": {
-        "rules": [r_panic.run_parse, r_span.run, r_rec.run_parse, r_coordspace.run, r_errdrop.run, r_opcode.run_all, r_loopvar.run_parse, r_depth.run, r_span.rule_own_text],
+        "rules": [r_panic.run_parse, r_span.run, r_rec.run_parse, r_coordspace.run, r_errdrop.run, r_opcode.run_all, r_loopvar.run_parse, r_depth.run, r_span.rule_own_text, r_span.rule_label_column],
         "explanation": "Decides: (R-SPAN) the lexer only compares bytes with ASCII constants, Span/Position are built or modified "
                        "only in the s-expression module, the single post-hoc span adjustment is guarded by a test selecting exactly "
                        "one lexer message, and text is indexed by a span only through Index<Span> on that span's own file_content(); "
@@ -52,7 +52,7 @@ PROPS = {
                        "strict suffix), or is in a reviewed table. (R-DEPTH) the recursion depth is bounded by explicit guards: the "
                        "reader's open-list stack, the action nesting counter that every cycle of the action parsers passes "
                        "through, the template expansion nesting and size budget, the variable chain length."
-                       " Added in session 4: (R-SPAN-OWN-TEXT) a span is applied to its own file's text; R-DEPTH clauses for alias bookkeeping (recorded from the reset counter, maximum raised to the compared sum), actions stored twice charged twice, any-key entries charged per position, resolved variable size and concat length bounded.",
+                       " Added in session 4: (R-SPAN-OWN-TEXT) a span is applied to its own file's text; R-DEPTH clauses for alias bookkeeping (recorded from the reset counter, maximum raised to the compared sum), actions stored twice charged twice, any-key entries charged per position, resolved variable size and concat length bounded. Added in session 5: (R-LABEL-COLUMN) the conversion ParseError -> miette::Error drops the labelled span when it lies right of a bounded column (the report renderer's padding width is 16 bits; reproduced panic, repaired in 9c38ca8).",
         "not_decided": "termination of loops, stack depth (self-referential defvar recursion is a known limitation), miette internals, "
                        "char-boundary safety of span slicing beyond the reviewed lexer invariant",
     },
